@@ -96,6 +96,19 @@ func c13GuardOrder(c *Check, a *Anchors) {
 		_, isDefer := nd.(*ast.DeferStmt)
 		return !isDefer
 	})
+	// "...and the invocation fails": no successful exit of the body (up to date, nothing to do, all commands done) without the
+	// preconditions having passed
+	for i, r := range fb.Returns {
+		res := errResult(r)
+		if res == nil || !isNilLit(body.Info(), res) {
+			continue
+		}
+		st := fb.At[r]
+		n++
+		ok, miss := need(st, "nil:deps", "nil:preconditions")
+		c.Decide(ok, "guards-before-execution", fmt.Sprintf("success-return#%d@%s", i+1, fnDisplay(body)), r.Pos(), "dominated by nil:deps, nil:preconditions",
+			fmt.Sprintf("the task body returns success without %s: a task whose precondition fails is reported as done (for example as \"up to date\") and its callers continue; must-facts: %s", miss, st))
+	}
 	c.Floor("guards-before-execution", n, 2)
 	// Run: internal tasks rejected before any start
 	run := a.Run
